@@ -45,6 +45,9 @@ type inst struct {
 	V    [][]int64 `json:"V"`
 	Gap  []int64   `json:"gap"`
 	Ev   []evrec   `json:"ev"`
+	// Paths[3*ju+jv] = {path, fast}: the Dgesvd path of the specification's path-selection model for
+	// the job pair (0 None, 1 Store, 2 All) and the workspace length from which its fast variant runs.
+	Paths [][]int `json:"paths"`
 }
 
 // forcedNB > 0 when the Ilaenv override is installed (used only for counting).
@@ -92,6 +95,14 @@ func replay(in *core.Lines, args []string, seed int64, sum *core.Summary) error 
 		sum.Extra["forced_nx"] = nx
 	}
 	onlyRoutine = only
+	defer func() {
+		for name, t := range gridTable {
+			if sum.Extra == nil {
+				sum.Extra = map[string]any{}
+			}
+			sum.Extra[name] = t
+		}
+	}()
 	for {
 		line, ok := in.Next()
 		if !ok {
@@ -120,5 +131,5 @@ var onlyRoutine string
 
 func want(group string) bool { return onlyRoutine == "" || onlyRoutine == group }
 
-// pads lists the leading-dimension paddings tried: minimum and minimum + 3.
-var pads = []int{0, 3}
+// pads lists the leading-dimension paddings tried: minimum, minimum + 1 and minimum + 3.
+var pads = []int{0, 1, 3}
